@@ -5,7 +5,10 @@
    output  `ok <tok> ...` (tok = `<k><b><s>.<hex>`)  |  `err <constructor of PP.Err>`
    sub-commands: `expand` (model of preprocess2 from the table of init_macros), `spec` (Spec.PPSpec.expand),
    `expandh` (the model again, every output token with its hide set: `ok <hex spelling>@<name>,<name>,... ...` — the
-   line format of tools/harness/pp_harness.c, which prints the same for the real preprocess2) -/
+   line format of tools/harness/pp_harness.c, which prints the same for the real preprocess2), `strz` (the tokens of the line
+   are ONE argument of `#`: `<hex of stringize's text> <hex of stringizeSpec's text> <what Lex.lexOne makes of the model's
+   text: one<k>|many|none|error> <1|0: every token literal-safe and without new-line, the hypothesis of
+   C09_stringize_wellformed>`) -/
 import ChibiVerif.Model.PP
 import ChibiVerif.Spec.PPSpec
 
@@ -115,5 +118,31 @@ partial def ppLoopH (h : IO.FS.Stream) : IO UInt32 := do
   ppLoopH h
 
 def ppMainH : IO UInt32 := do ppLoopH (← IO.getStdin)
+
+/-! `strz`: the `#` operator on one argument -/
+
+def lexOneName : LexOne → String
+  | .one k => "one" ++ String.ofList [kindChar k]
+  | .many => "many"
+  | .none => "none"
+  | .error => "error"
+
+def runLineStrz (line : String) : String :=
+  let ws := (line.trimAscii.toString.splitOn " ").filter (· ≠ "")
+  match ws.mapM parseTok with
+  | some ts =>
+    let hash : Tok := { kind := .punct, text := "#" }
+    let m := (stringize hash ts).text
+    let ok := ts.all fun t => strSafeTok t && t.text.toList.all (· != '\n')
+    " ".intercalate [hex m, hex (ChibiVerif.Spec.PPSpec.stringizeSpec hash ts).text, lexOneName (Lex.lexOne m), if ok then "1" else "0"]
+  | none => "bad-op"
+
+partial def ppLoopStrz (h : IO.FS.Stream) : IO UInt32 := do
+  let line ← h.getLine
+  if line.isEmpty then return 0
+  IO.println (runLineStrz line)
+  ppLoopStrz h
+
+def ppMainStrz : IO UInt32 := do ppLoopStrz (← IO.getStdin)
 
 end ChibiVerif.Driver
